@@ -229,6 +229,10 @@ def gen_parent(rng, nfr=None):
         spec["fragment_multiplicities"] = [rng.choice([None, None, 1, 2, 3]) for _ in range(nfr)]
         if all(x is None for x in spec["fragment_multiplicities"]):
             spec.pop("fragment_multiplicities")
+    if nfr == 1 and rng.random() < 0.65:
+        # a molecule of one fragment usually does not say so: the validated object then stores no fragment list at all
+        # (the raw field is None; `fragments` answers [[0..n-1]]) and every call below runs against that state
+        spec.pop("fragments")
     return spec
 
 
@@ -781,6 +785,19 @@ def correspond(ctx):
             run_case(pl, lowspin, list(sel), [i for i in range(nl) if i not in sel], True, False, "corpus_low_spin")
         add_molecule_checks(pl, "corpus", {"parent": lowspin})
 
+    # parents of exactly one fragment that do not list it (nothing stored in the raw fragment fields): every selection incl.
+    # ghost-only, every argument form, both paths, orient
+    for single in ({"symbols": ["O", "H", "H"], "geometry": [0, 0, 0, 0, 1.5, 1.1, 0, -1.5, 1.1]},
+                   {"symbols": ["He", "Li"], "geometry": [0, 0, 0, 0, 0, 4.5], "real": [False, True]},
+                   {"symbols": ["N"], "geometry": [0.25, 0, 0], "molecular_charge": 1.0, "molecular_multiplicity": 3}):
+        ps = build(single)
+        corr.hit("single_fragment_parent_fragments_" + ("not_stored" if ps.__dict__.get("fragments_") is None else "stored"))
+        for real, ghost in [([0], []), ([], [0]), (0, OMIT), ([0], OMIT), ([0], None), ([], 0), ([0], [0]), ([1], []), ([], [1]), ([], [])]:
+            for group in (True, False, None):
+                for orient in (False, True):
+                    run_case(ps, single, real, ghost, group, orient, "corpus_single_fragment")
+        add_molecule_checks(ps, "corpus", {"parent": single})
+
     nb = 0
     attempts = 0
     while nb < nparents and attempts < nparents * 8:
@@ -805,6 +822,8 @@ def correspond(ctx):
         nb += 1
         nfr = len(parent.fragments)
         corr.hit(f"parent_nfr_{nfr}")
+        if parent.__dict__.get("fragments_") is None:
+            corr.hit("parent_fragments_not_stored")
         if not all(bool(x) for x in parent.real):
             corr.hit("parent_with_ghost_atoms")
         if nb <= 2:
@@ -943,6 +962,53 @@ def correspond(ctx):
                                               "what": "order_molecular_formula of a formula differs from the formula of the symbols in that order", "observed": re_out})
                     hterms.append(f"({cstr(out)}, {cstr(o2)}, (Ok {cstr(re_out)}))")
                     hmeta.append({"formula": out, "order": o2})
+    # element counts of two and more digits, zero digits included (10, 20, 100, 101, 110 ...): written whole, read back whole,
+    # through molecular_formula_from_symbols, order_molecular_formula (both orders) and Molecule.get_molecular_formula
+    big = [[("C", 10), ("H", 22)], [("C", 20), ("H", 42)], [("C", 60)], [("He", 101), ("Ne", 3)], [("H", 100)], [("Cl", 110), ("C", 1)],
+           [("C", 10), ("H", 10), ("N", 10), ("O", 10)], [("Ca", 30), ("Co", 105), ("H", 2)]]
+    for _ in range(16 if ctx.thorough else 6):
+        els = rng.sample(alphabet, rng.choice([1, 2, 2, 3]))
+        big.append([(el, rng.choice([10, 20, 30, 40, 50, 70, 90, 100, 101, 102, 109, 110, 120, rng.randint(10, 130)]) if j == 0 or rng.random() < 0.5
+                     else rng.randint(1, 9)) for j, el in enumerate(els)])
+    for comp in big:
+        syms = [el for el, n in comp for _i in range(n)]
+        rng.shuffle(syms)
+        for order in ("alphabetical", "hill"):
+            out = molecular_formula_from_symbols(syms, order=order)
+            corr.count("formula_big_counts")
+            corr.nontriv(["formula", sorted(comp), order])
+            bad = oracle_formula(syms, order, out)
+            if bad:
+                corr.failures.append({"stream": "oracle:formula_big_counts", "case": {"symbols": syms, "order": order}, "what": bad, "observed": out})
+            gterms.append(f"({clist(syms, cstr)}, {cstr(order)}, (Ok {cstr(out)}))")
+            gmeta.append({"symbols": syms, "order": order})
+            for o2 in ("alphabetical", "hill"):
+                want = molecular_formula_from_symbols(syms, order=o2)
+                corr.count("order_formula_big_counts")
+                try:
+                    re_out = order_molecular_formula(out, order=o2)
+                    res, bad = f"(Ok {cstr(re_out)})", None
+                    if re_out != want:
+                        bad = f"order_molecular_formula of {out!r} in {o2} order is {re_out!r}, the formula of the same symbols is {want!r}"
+                except Exception as e:
+                    re_out, res = ekind(e), cerr(ekind(e))
+                    bad = f"order_molecular_formula refused the written formula {out!r}: {e!r}"
+                if bad:
+                    corr.failures.append({"stream": "oracle:formula_big_counts", "case": {"symbols": syms, "order": order, "reorder": o2},
+                                          "what": bad, "observed": re_out})
+                hterms.append(f"({cstr(out)}, {cstr(o2)}, {res})")
+                hmeta.append({"formula": out, "order": o2})
+    for comp in big[:5]:
+        syms = [el for el, n in comp for _i in range(n)]
+        bspec = {"symbols": syms, "geometry": [c for i in range(len(syms)) for c in (2.5 * (i % 5), 2.5 * ((i // 5) % 5), 2.5 * (i // 25))]}
+        try:
+            bm = build(bspec)
+        except ValidationError:
+            corr.hit("big_count_molecule_rejected")
+            continue
+        corr.hit("big_count_molecule")
+        add_formula_checks(bm, {"parent": bspec})
+
     for o in ("Hill ", "iupac", ""):
         try:
             molecular_formula_from_symbols(["H"], order=o)
@@ -1039,6 +1105,15 @@ def _replay_case(case, rng, live_parent=None):
             return {"input": case, "implementation": out, "oracle": bad, "fails": bool(bad)}
         out = molecular_formula_from_symbols(case["symbols"], order=case["order"])
         bad = oracle_formula(case["symbols"], case["order"], out)
+        if not bad and case.get("reorder"):
+            from qcelemental.molutil import order_molecular_formula
+            want = molecular_formula_from_symbols(case["symbols"], order=case["reorder"])
+            try:
+                re_out = order_molecular_formula(out, order=case["reorder"])
+                if re_out != want:
+                    bad = f"order_molecular_formula of {out!r} gives {re_out!r}, the formula of the same symbols is {want!r}"
+            except Exception as e:
+                bad = f"order_molecular_formula refused the written formula {out!r}: {e!r}"
         return {"input": case, "implementation": out, "oracle": bad, "fails": bool(bad)}
     pspec = dict(case["parent"])
     parent = live_parent if live_parent is not None else quiet(Molecule, **pspec)
@@ -1147,8 +1222,11 @@ LEVEL_TEXT = (
     "the selection of every fragment in the parent's order; unchanged after every array / list the extracted sub-molecules hand out — properties "
     "and dict() values — and what the parent hands out for fields it does not store has been modified in place; extractions "
     "repeatable; caller's lists untouched), the index lists handed over as tuple / integer array / numpy integers / range and the "
-    "flags as numpy booleans (stream call_containers); nelectrons / nuclear_repulsion_energy whole and per fragment; every "
-    "symbol multiset up to size 4 (quick) / 6 (thorough) over a 12-element alphabet in both orders; and by the conservation oracle "
+    "flags as numpy booleans (stream call_containers); single-fragment parents that do not list their fragment (raw fragment fields "
+    "None; every selection incl. ghost-only and out-of-range, both paths, orient); nelectrons / nuclear_repulsion_energy whole and per fragment; every "
+    "symbol multiset up to size 4 (quick) / 6 (thorough) over a 12-element alphabet in both orders; element counts of two and three digits "
+    "incl. zero digits (10, 20, 100, 101, 110: written by molecular_formula_from_symbols / Molecule.get_molecular_formula, read back by "
+    "order_molecular_formula in both orders); and by the conservation oracle "
     "evaluated directly on the implementation's results (incl. rigid motion + atom reordering of the repulsion energy).")
 LEVEL_NOTE = (
     "Clause map: (1,2) exactly the chosen fragments' atoms, real-first or parent order: atoms_conserved_grouped/_ungrouped, "
